@@ -8,7 +8,7 @@ CONSTANTS
   MaxNpts = 5
   CtorLen = 2
   Rich = FALSE
-  Acts = {"KvShift", "KvScale", "KvNormalize", "FnBasis"}
+  Acts = {"KvValueOp", "KvShift", "KvScale", "KvNormalize", "FnBasis"}
 INVARIANT WellFormed
 PROPERTY FailedIsNoOp
 PROPERTY AffineProps
